@@ -28,16 +28,16 @@ type DCol struct {
 
 // DEvent is a snapshot of one delivered event.
 type DEvent struct {
-	Type    int        `json:"type"`
-	DB      string     `json:"db"`
-	Table   string     `json:"table"`
-	QueryDB string     `json:"query_db"`
-	SQL     string     `json:"sql"`
-	Charset *[3]int32  `json:"charset"`
-	TS      int64      `json:"ts"`
-	Values  [][]DCol   `json:"values"`
-	Idents  [][]DCol   `json:"idents"`
-	NilRow  bool       `json:"nil_row,omitempty"`
+	Type    int       `json:"type"`
+	DB      string    `json:"db"`
+	Table   string    `json:"table"`
+	QueryDB string    `json:"query_db"`
+	SQL     string    `json:"sql"`
+	Charset *[3]int32 `json:"charset"`
+	TS      int64     `json:"ts"`
+	Values  [][]DCol  `json:"values"`
+	Idents  [][]DCol  `json:"idents"`
+	NilRow  bool      `json:"nil_row,omitempty"`
 }
 
 // Delivered is one handler call.
@@ -125,26 +125,32 @@ type MapperCall struct {
 
 // Mapper is the scripted table mapper.
 type Mapper struct {
-	mu         sync.Mutex
-	tables     map[[2]string]*hist.Table
-	Calls      []MapperCall
-	ErrOnCall  int // 1-based ordinal of the call that fails (0 = never); counted over the session
-	BadOnCall  int // 1-based ordinal of the call that returns a wrong column count
-	BadDelta   int // +1 or -1
-	OnFail     func() // called (inside the lookup) just before a scripted failure is returned
+	mu        sync.Mutex
+	tables    map[[2]string]*hist.Table
+	Calls     []MapperCall
+	ErrOnCall int    // 1-based ordinal of the call that fails (0 = never); counted over the session
+	BadOnCall int    // 1-based ordinal of the call that returns a wrong column count
+	BadDelta  int    // +1 or -1
+	OnFail    func() // called (inside the lookup) just before a scripted failure is returned
 	// Versions: for a table name, what the mapper answers on its 1st, 2nd, ...
 	// lookup of that name (a schema that changes over time); nil = always the
 	// first version of the history
-	Versions map[[2]string][]*hist.Table
-	lookups  map[[2]string]int
+	Versions   map[[2]string][]*hist.Table
+	lookups    map[[2]string]int
 	tr         *sim.Trace
 	totalCalls int
 }
 
 // NewMapper builds a mapper over the tables of a history (by db and name; the
 // first version of a name defines column names and signedness).
+// BadTable is known to every mapper and announced by no history: fault
+// injection uses it for rows events whose cells cannot be decoded.
+var BadTable = &hist.Table{ID: 0xBAD0BAD, DB: "verif_bad", Name: "j", Flags: 1,
+	Cols: []hist.Column{{Name: "id", Type: 3}, {Name: "doc", Type: 245, Meta: 4, Nullable: true}}}
+
 func NewMapper(tables []*hist.Table, tr *sim.Trace) *Mapper {
 	m := &Mapper{tables: map[[2]string]*hist.Table{}, tr: tr}
+	m.tables[[2]string{BadTable.DB, BadTable.Name}] = BadTable
 	for _, t := range tables {
 		k := [2]string{t.DB, t.Name}
 		if _, ok := m.tables[k]; !ok {
@@ -235,7 +241,7 @@ type HandlerScript struct {
 	InlineError bool
 	// WithDeadline runs the attempt under a context that also carries a (far) deadline
 	WithDeadline bool
-	OnCall   func(n int, tx *gobinlog.Transaction, d *Delivered) // extra monitor (C08)
+	OnCall       func(n int, tx *gobinlog.Transaction, d *Delivered) // extra monitor (C08)
 }
 
 // NoFaults is a handler that accepts everything.
@@ -356,22 +362,22 @@ func (s *Session) skipSet(extra ...int64) map[int64]bool {
 
 // AttemptResult is what one Stream call produced.
 type AttemptResult struct {
-	Attempt    int
-	Err        error
-	Panic      string
-	Verdict    Verdict // Returned / Stuck / Undecided
-	StuckDump  []G
-	Delivered  []*Delivered
-	Conn       *sim.ConnLog // master-side log of the connection of this attempt (nil if none was accepted)
-	XConn      *xport.Conn  // client-side transport (nil if not wrapped / not dialled)
-	Dump       *sim.DumpReq // the dump request of this attempt (nil if none arrived)
-	ConnsMade  int          // connections the master accepted during this attempt
-	DumpsMade  int
-	DumpConn   *sim.ConnLog // the connection that carried the first dump request (nil if none)
-	InlineErrDone bool // Error() was called inline right after Stream returned
+	Attempt       int
+	Err           error
+	Panic         string
+	Verdict       Verdict // Returned / Stuck / Undecided
+	StuckDump     []G
+	Delivered     []*Delivered
+	Conn          *sim.ConnLog // master-side log of the connection of this attempt (nil if none was accepted)
+	XConn         *xport.Conn  // client-side transport (nil if not wrapped / not dialled)
+	Dump          *sim.DumpReq // the dump request of this attempt (nil if none arrived)
+	ConnsMade     int          // connections the master accepted during this attempt
+	DumpsMade     int
+	DumpConn      *sim.ConnLog // the connection that carried the first dump request (nil if none)
+	InlineErrDone bool         // Error() was called inline right after Stream returned
 	InlineErr     error
-	Done       chan struct{}
-	StreamGID  int64
+	Done          chan struct{}
+	StreamGID     int64
 }
 
 // Start launches one Stream call and returns immediately; Wait collects it.
